@@ -219,6 +219,50 @@ def server_cases(ck, rng):
     return cases + ov
 
 
+def coq_bool(b):
+    return "true" if b else "false"
+
+
+def coq_tcase(c, obs):
+    mws = coq_list("(%s, (%s, %s, %s, %s))" % (coq_z(m["prio"]), coq_ops(m["pre"]), coq_bool(m.get("tpre")),
+                                                 coq_ops(m["post"]), coq_bool(m.get("tpost"))) for m in c["mws"])
+    return "(%s, %s, %s, %s, %s)" % (mws, coq_ops(c["ops"]), coq_bool(c.get("throw")), coq_ops(c["onerror"] or []), coq_obs(obs))
+
+
+def throw_cases(ck, rng):
+    """one request where a MIDDLEWARE (closure or class instance) ends in an uncaught throw before or after
+    $next, possibly together with a throwing handler; onError is always registered"""
+    out = []
+    small = [["status", 201], ["header", "X-A", "1"], ["cookie", "t", "7"], ["write", "a"], ["json", "[\"j\"]"],
+             ["redirect", "/t", 302], ["nocontent", 204], ["htmlwith", "h", 418]]
+    onerr = [["status", 500], ["write", "E"]]
+    # one middleware: every (pre, post) pair, throw before / after $next, closure and class
+    for a in small:
+        for b in small:
+            for where in ("tpre", "tpost"):
+                if ck.tier == "thorough" or rng.random() < 0.5:
+                    out.append({"kind": "server", "tmode": True, "mws": [{"prio": 0, "pre": [a], "post": [b], where: True, "class": rng.random() < 0.5}],
+                                "ops": [["status", 202], ["write", "F"]], "throw": False, "onerror": onerr})
+    # two and three layers: which layer throws, where; handler may throw too
+    for n in (2, 3):
+        for who in range(n):
+            for where in ("tpre", "tpost"):
+                for hthrow in (False, True):
+                    for cls in (False, True):
+                        mws = [{"prio": rng.choice([0, 0, 1]), "pre": [["write", "p%d" % i]], "post": [["write", "q%d" % i], ["header", "X-L%d" % i, "1"]],
+                                "class": cls if i == who else not cls} for i in range(n)]
+                        mws[who][where] = True
+                        out.append({"kind": "server", "tmode": True, "mws": mws, "ops": [rng.choice(small), ["write", "F"]], "throw": hthrow, "onerror": onerr})
+    for _ in range(80 if ck.tier == "quick" else 1500):
+        n = rng.randint(1, 4)
+        mws = [{"prio": rng.choice([-1, 0, 0, 5]), "pre": [rand_op(rng, True) for _ in range(rng.randint(0, 2))],
+                "post": [rand_op(rng, True) for _ in range(rng.randint(0, 2))], "class": rng.random() < 0.4,
+                "tpre": rng.random() < 0.15, "tpost": rng.random() < 0.25} for _ in range(n)]
+        out.append({"kind": "server", "tmode": True, "mws": mws, "ops": [rand_op(rng, True) for _ in range(rng.randint(0, 3))],
+                    "throw": rng.random() < 0.3, "onerror": [rand_op(rng, True) for _ in range(rng.randint(0, 3))]})
+    return out
+
+
 def coq_case(ops, obs):
     hdr = coq_list("(%s, %s)" % (coq_string(k), coq_list(coq_string(v) for v in vs))
                    for k, vs in sorted((obs.get("hdr") or {}).items()))
@@ -300,7 +344,7 @@ def main(ck):
         for _ in range(40 if ck.tier == "quick" else 600):
             mcases.append({"kind": "mwscript", "prios": [rng.choice([-(2**63 - 1), -1, 0, 1, 2**63 - 1, 2**62]) for _ in range(rng.randint(2, 6))]})
 
-    scases = [] if ck.replay else server_cases(ck, rng)
+    scases = [] if ck.replay else server_cases(ck, rng) + throw_cases(ck, rng)
     replay_r = []
     if ck.replay and cases:
         kind = cases[0].get("kind")
@@ -419,9 +463,14 @@ def main(ck):
                       "clause": "a route is wrapped by exactly the middlewares its Server holds when it is registered "
                                 "(its own and what its parents held when it was created), in stable priority order"})
     sterms, sidx = [], []
+    tterms, tidx = [], []
     for i, (c, o) in enumerate(zip(scases, o_srv)):
         if o.get("err"):
             ck.violation("impl-error:server", {"case": c, "impl_out": o, "clause": "implementation raised"})
+            continue
+        if c.get("tmode"):
+            tterms.append(coq_tcase(c, o))
+            tidx.append(i)
             continue
         sterms.append(coq_scase(c, o))
         sidx.append(i)
@@ -440,6 +489,15 @@ def main(ck):
         key = "server:%s:clauses=%s" % (shape, "".join(map(str, cls)))
         if not (2 in cls or 4 in cls):
             ck.broken.append("correspondence:C13.server")
+        ck.violation(key, {"case": c, "impl_out": o, "clause": [clause_names[x] for x in cls]})
+    tbad = ck.eval_cases("tcases", HEADER, tterms, "check_tcase", shard=600) if tterms else {}
+    for j, cls in sorted(tbad.items()):
+        c, o = scases[tidx[j]], o_srv[tidx[j]]
+        thrower = next(("%s%s" % ("class" if m.get("class") else "closure", ":pre" if m.get("tpre") else ":post")
+                        for m in c["mws"] if m.get("tpre") or m.get("tpost")), "handler-only")
+        key = "server:mw-throw:%s:clauses=%s" % (thrower, "".join(map(str, cls)))
+        if not (2 in cls or 4 in cls):
+            ck.broken.append("correspondence:C13.server-throw")
         ck.violation(key, {"case": c, "impl_out": o, "clause": [clause_names[x] for x in cls]})
     mterms = []
     for c, o in zip(mcases, o_mw):
@@ -480,6 +538,7 @@ def main(ck):
                               "with_middleware": sum(1 for c in scases if c["mws"])}
     ck.cov["exhaustive_ops_len"] = 3 if ck.tier == "quick" else 4
     ck.samples += scases[3:4]
+    ck.cov["throwing_middleware_cases"] = len(tterms)
     ck.cov["registration_order_cases"] = len(rcases)
     ck.cov["registration_with_groups"] = sum(1 for c in rcases if any(it[0] == "group" for it in c["items"]))
     ck.cov["overlapping_request_cases"] = {"total": sum(1 for c in scases if c.get("overlap")),
@@ -487,4 +546,4 @@ def main(ck):
     ck.finish(level="proof", evaluations=len(cases) + len(mcases) + len(scases) + len(rcases),
               distinct_nontrivial=nontriv + mdistinct,
               rule="op sequences: all sequences up to the stated length over a 15-op pool (go-level), every single op and ordered pair at script level, seeded random sequences of length 1..12; middleware stacks: all sub-multisets orderings of {-1,0,0,1,5} plus seeded random; non-trivial = distinct sequence with a committing op and at least one other op (ops) / more than one entry (middleware)",
-              traces=len(terms) + len(mterms) + len(sterms) + len(rterms))
+              traces=len(terms) + len(mterms) + len(sterms) + len(rterms) + len(tterms))
